@@ -76,7 +76,7 @@ func (f *MapInto) Call(s *slip.Scope, args slip.List, depth int) (result slip.Ob
 			}
 			ca[j] = list[i]
 		}
-		rlist[i] = caller.Call(s, ca, d2)
+		rlist[i] = slip.PrimaryValue(caller.Call(s, ca, d2))
 	}
 	return rlist
 }
